@@ -401,6 +401,8 @@ class ValueWrapper(Term):
             return cls.get_formatted_value(value.isoformat(), ctx)
         if isinstance(value, str):
             value = value.replace(quote_char, quote_char * 2)
+            if ctx.dialect is Dialects.MYSQL:
+                value = value.replace("\\", "\\\\")
             return format_quotes(value, quote_char)
         if isinstance(value, bool):
             return str(value).lower()
